@@ -342,7 +342,8 @@ def run_formula(ctx, case):
         return
     # distinct keys -> distinct probes (key advanced every iteration)
     keys = [p["key"] for p in probes]
-    ctx.check("key-advanced-between-iterations", len(set(keys)) == len(keys) and all(not np.array_equal(zs[i], zs[i + 1]) for i in range(len(zs) - 1)),
+    raw = [p["z"] for p in probes]  # (the raw normal draws: small Rademacher blocks can coincide by chance)
+    ctx.check("key-advanced-between-iterations", len(set(keys)) == len(keys) and all(not np.array_equal(raw[i], raw[i + 1]) for i in range(len(raw) - 1)),
               site="hutch", preds=preds, detail={"keys": keys[:5]})
     if rand == "rademacher":
         ctx.check("rademacher-probes-are-pm1", bool(all(np.all(np.abs(z) == 1) for z in zs)), site="hutch", preds=preds, detail=None)
